@@ -309,3 +309,26 @@ CHECKS["C09"] = dict(
     technique="property-based testing (rapid): oracle-classified credentials, bus-traffic observation, model reachability for login",
     design_ref="DESIGN.md section 4, C09",
 )
+
+CHECKS["C13"] = dict(
+    pkg="c13", level="exploration",
+    props=[dict(name="TestPropRule", quick=1200, thorough=16 * 6000, shards_quick=12, shards_thorough=16, timeout_quick=900, timeout_thorough=7200)],
+    rule="client.NewRuleClient run against a bare embedded NATS server (no store): rule with 0-4 conditions (point-value: "
+         "node/type/key filters each present or blank, number > < = !=, on/off, text = != contains with drawn thresholds; "
+         "schedule: start/end minutes, weekday subset or dates near the reference week), 0-3 set-value actions and 0-3 "
+         "inactive actions, drawn initial active flags; then 3-25 batches of 1-3 points published on up.<parent>.<node> from "
+         "matching and non-matching nodes, including trigger points with drawn times, plus a batch under another parent. "
+         "Oracle: a reference interpreter written from the property statement and docs/user/rules.md (latest matching point "
+         "per condition; rule = AND, empty = active; on each rule state change the list for the new state runs once in order "
+         "- set-value point with the rule as origin, then the action marked active - and the opposite list is marked "
+         "inactive; schedule via the C14 reference) predicts every write; condition, rule and target writes are compared as "
+         "an exact sequence (subject, type, value, text, origin), action marks as a multiset. Non-trivial = >= 2 conditions of "
+         "different kinds and >= 2 rule state changes.",
+    assumptions=["generated configurations are valid (documented value types and operators, parsable schedules); error reporting points are not part of the statement",
+                 "set-value targets differ from the rule node", "a missing write is reported after 5 s; the rule's 10 s schedule ticker does not fire within a case"],
+    level_text="Generated rule configurations and point histories (rapid) against a reference interpreter; nothing echoes the rule's "
+               "writes back, so the predicted write sequence is deterministic.",
+    level_note="Trusted: the reference interpreter in harness/c13 and the schedule reference shared with C14; NATS ordering on one publishing connection.",
+    technique="property-based testing (rapid): differential against a reference interpreter of the rule semantics",
+    design_ref="DESIGN.md section 4, C13",
+)
